@@ -71,8 +71,18 @@ def build_harness():
         env = dict(ENV, CARGO_TARGET_DIR=TARGET)
         rc, out = sh(["cargo", "build", "--offline"], cwd=os.path.join(VERIF, "harness"), env=env,
                      timeout=1500)
+        flag = os.path.join(BUILD, "harness_degraded")
         if rc != 0:
-            raise CheckFailure("harness build failed (does /repo still compile?):\n" + out[-6000:])
+            # an API used only by an optional command may have changed: rebuild without those commands
+            # (they then answer UNAVAILABLE, which the checks that need them report for themselves)
+            rc2, out2 = sh(["cargo", "build", "--offline", "--no-default-features"],
+                           cwd=os.path.join(VERIF, "harness"), env=env, timeout=1500)
+            if rc2 != 0:
+                raise CheckFailure("harness build failed (does /repo still compile?):\n" + out[-6000:])
+            open(flag, "w").write(out[-3000:])
+            log("NOTE harness built without optional commands (API drift): " + out[-400:].replace("\n", " | "))
+        elif os.path.exists(flag):
+            os.unlink(flag)
     return out
 
 
